@@ -253,6 +253,15 @@ class FlatFn:
             if isinstance(a, ast.For) and isinstance(a.iter, ast.Name) and isinstance(a.target, ast.Name):
                 src_list = self.root(a.iter.id, a)
                 d = self.definition(src_list, a)
+                dc = d.args[0] if isinstance(d, ast.Call) and au.call_tail(d) in ("list", "tuple") and len(d.args) == 1 else d
+                if isinstance(dc, (ast.ListComp, ast.GeneratorExp)) and len(dc.generators) == 1 and isinstance(dc.generators[0].target, ast.Name) \
+                        and isinstance(dc.elt, ast.Name) and dc.elt.id == dc.generators[0].target.id:
+                    # L = [x for x in S if c(x)] ... for y in L: the filter of the comprehension holds for y
+                    m = {dc.elt.id: ast.Name(id=a.target.id, ctx=ast.Load())}
+                    for t_ in dc.generators[0].ifs:
+                        for e, p in sk.atoms([(t_, True)]):
+                            out.append((sym.subst(e, m), p))
+                    continue
                 if not ((isinstance(d, ast.List) and not d.elts) or (isinstance(d, ast.Call) and au.call_tail(d) == "list" and not d.args)):
                     continue
                 apps = [c for c in au.calls(self.fn) if isinstance(c.func, ast.Attribute) and c.func.attr == "append" and isinstance(c.func.value, ast.Name)
@@ -373,6 +382,74 @@ class FlatFn:
                             continue
                         out.append(c)
         return out
+
+    # ---------------------------------------------------------------- the subset of Python the rules model
+    FUNCTIONAL = {"partial", "methodcaller", "attrgetter", "itemgetter", "starmap", "reduce", "accumulate", "setattr", "delattr", "vars", "globals", "locals",
+                  "eval", "exec", "compile", "__import__", "iter", "next", "getattr", "apply", "chain", "tee", "islice", "takewhile", "dropwhile", "filterfalse",
+                  "groupby", "zip_longest", "product", "permutations", "combinations", "cycle", "repeat"}
+
+    def foreign(self):
+        """[(node, text)] constructs of the flattened function that are outside the subset of Python the rules model: a contradiction
+        (`fail`) reported for a function that contains one is not trusted (the construct may carry the obligation in a way no rule reads)"""
+        cached = getattr(self, "_foreign", None)
+        if cached is not None:
+            return cached
+        out = []
+        local_names = set(self.b.count) | set(self.params)
+        for n in ast.walk(self.fn):
+            if n is self.fn:
+                continue
+            if isinstance(n, (ast.Try, ast.With, ast.AsyncWith, ast.AsyncFor, ast.Global, ast.Nonlocal, ast.ClassDef, ast.Await, ast.NamedExpr)) or \
+                    type(n).__name__ in ("Match", "TryStar"):
+                out.append((n, type(n).__name__.lower() + " statement"))
+            elif isinstance(n, (ast.For, ast.While)) and n.orelse:
+                out.append((n, "loop with an else clause"))
+            elif isinstance(n, ast.Delete) and not all(isinstance(t, ast.Subscript) and not isinstance(t.slice, ast.Slice) for t in n.targets):
+                out.append((n, "del of a name / a slice"))
+            elif isinstance(n, ast.AugAssign) and not isinstance(n.op, (ast.Add, ast.Sub, ast.Mult)):
+                out.append((n, "augmented assignment with a bit / set operator"))
+            elif isinstance(n, ast.Assign) and any(isinstance(x, ast.Starred) for t in n.targets for x in ast.walk(t)):
+                out.append((n, "star-unpacking assignment"))
+            elif isinstance(n, (ast.Assign, ast.AugAssign, ast.Delete)) and any(isinstance(x, ast.Subscript) and isinstance(x.slice, ast.Slice)
+                                                                                 for t in (n.targets if isinstance(n, (ast.Assign, ast.Delete)) else [n.target])
+                                                                                 for x in [t]):
+                out.append((n, "slice assignment"))
+            elif isinstance(n, ast.Attribute) and n.attr.startswith("__") and n.attr.endswith("__") and n.attr not in ("__init__", "__name__", "__class__", "__doc__"):
+                out.append((n, f"access to {n.attr}"))
+            elif isinstance(n, ast.Call):
+                f = n.func
+                if isinstance(f, ast.Call) and isinstance(f.func, (ast.Name, ast.Attribute)):
+                    pass            # Tree(mesh, x)() : the object returned by a constructor / factory is called (the inner call is judged on its own)
+                elif not isinstance(f, (ast.Name, ast.Attribute)):
+                    out.append((n, "call of a computed callable"))
+                    continue
+                if (any(isinstance(a, ast.Starred) for a in n.args) or any(k.arg is None for k in n.keywords)) and \
+                        not (t_ := au.call_tail(n)) in ("is_edge_on_border", "opposite_face", "edge_id", "print", "log", "distance", "format"):
+                    out.append((n, "call with unpacked arguments"))
+                    continue
+                t = au.call_tail(n)
+                if t in self.FUNCTIONAL and not (t == "getattr" and len(n.args) >= 2 and isinstance(n.args[1], ast.Constant)):
+                    out.append((n, f"{t}(..)"))
+                    continue
+                if t in ("map", "filter") and n.args and (isinstance(n.args[0], ast.Lambda) or
+                                                          (isinstance(n.args[0], ast.Attribute) and n.args[0].attr in self.MUTATORS)):
+                    out.append((n, f"{t}(..) with a lambda / a mutating method"))
+                    continue
+                if isinstance(f, ast.Attribute) and isinstance(f.value, ast.Call) and au.call_tail(f.value) != "super" and f.attr in self.MUTATORS:
+                    out.append((n, "mutating method called on the result of a call"))
+                    continue
+                if isinstance(f, ast.Attribute) and isinstance(f.value, ast.Name) and f.value.id in local_names and f.value.id not in ("self", "cls") \
+                        and f.attr not in self.KNOWN_METHODS and f.attr not in self.LOCAL_OK:
+                    d = self.definition(f.value.id, n)
+                    container = isinstance(d, (ast.List, ast.Dict, ast.Set, ast.ListComp, ast.DictComp, ast.SetComp)) or \
+                        (isinstance(d, ast.Call) and au.call_tail(d) in ("list", "dict", "set", "deque", "defaultdict", "fromkeys", "PriorityQueue", "UnionFind"))
+                    if container:
+                        out.append((n, f"method .{f.attr}(..) of a local container"))
+        self._foreign = out
+        return out
+
+    LOCAL_OK = {"is_edge_on_border", "is_vertex_on_border", "edge_id", "vertex_to_vertices", "face_to_edges", "opposite_face", "other_face_side", "cell_to_face",
+                "direct_face", "face_id", "vertex_to_faces", "other_edge_end", "n_comps", "isdisjoint", "issuperset", "most_common", "lower", "upper", "strip"}
 
     def aliases_of(self, names):
         """local names whose (single or repeated) definitions mention one of `names` as the object they are taken from:
@@ -505,9 +582,27 @@ class FlatFn:
         return vals, found_ctor
 
 
+def _general_value(e):
+    """`a if k == <the root / start element> else b` : the value given to every *other* element (b); any other conditional: both branches"""
+    if isinstance(e, ast.IfExp):
+        t = e.test
+        if isinstance(t, ast.Compare) and len(t.ops) == 1 and isinstance(t.ops[0], (ast.Eq, ast.NotEq, ast.Is, ast.IsNot)):
+            return _general_value(e.orelse if isinstance(t.ops[0], (ast.Eq, ast.Is)) else e.body)
+        return _general_value(e.body) + _general_value(e.orelse)
+    return [e]
+
+
 def ctor_values(v):
     """value expressions a container constructor puts in: dict comprehension values, dict([(k, val) ..]), dict.fromkeys(k, val),
-    [val] * n, [val for ..], np.full(n, val) ..."""
+    [val] * n, [val for ..], np.full(n, val) ...  (a conditional value that singles out one element - `0 if v == root else inf` - gives
+    the value of the other elements)"""
+    out = []
+    for x in _ctor_values(v):
+        out.extend(_general_value(x))
+    return out
+
+
+def _ctor_values(v):
     if isinstance(v, ast.DictComp):
         return [v.value]
     if isinstance(v, (ast.ListComp, ast.GeneratorExp)):
@@ -549,9 +644,32 @@ def ctor_values(v):
 
 # --------------------------------------------------------------------- flag tables (visited / seen)
 def flag_test(e, pol):
-    """(table expr, key expr, is_set) when the atom (e, pol) tests a per-element flag: `T[k]`, `k in T`, or None"""
+    """(table expr, key expr, is_set) when the atom (e, pol) tests a per-element flag: `T[k]`, `k in T`, `T[k] == True / is False / != 0 / > 0 ..`,
+    `T.get(k)` / `T.get(k, False)`, `bool(T[k])`, or None"""
+    if isinstance(e, ast.Call) and isinstance(e.func, ast.Name) and e.func.id == "bool" and len(e.args) == 1 and not e.keywords:
+        return flag_test(e.args[0], pol)
+    if isinstance(e, ast.Call) and isinstance(e.func, ast.Attribute) and e.func.attr == "get" and not e.keywords and \
+            (len(e.args) == 1 or (len(e.args) == 2 and isinstance(e.args[1], ast.Constant) and not e.args[1].value)):
+        return e.func.value, e.args[0], pol           # a missing key reads as unset
+    if isinstance(e, ast.Compare) and len(e.ops) == 1 and isinstance(e.ops[0], (ast.Gt, ast.LtE, ast.GtE, ast.Lt)) and isinstance(e.comparators[0], ast.Constant) \
+            and not isinstance(e.comparators[0].value, bool) and e.comparators[0].value in (0, 1):
+        inner = flag_test(e.left, True)
+        if inner is not None and isinstance(e.left, (ast.Subscript, ast.Call)):
+            c_ = e.comparators[0].value
+            # counts / 0-1 flags:  x > 0, x >= 1 : set ;  x <= 0, x < 1 : unset
+            is_set = (isinstance(e.ops[0], ast.Gt) and c_ == 0) or (isinstance(e.ops[0], ast.GtE) and c_ == 1)
+            is_unset = (isinstance(e.ops[0], ast.LtE) and c_ == 0) or (isinstance(e.ops[0], ast.Lt) and c_ == 1)
+            if is_set or is_unset:
+                return inner[0], inner[1], pol == is_set
     if isinstance(e, ast.Subscript) and not isinstance(e.slice, ast.Slice):
         return e.value, e.slice, pol
+    if isinstance(e, ast.Compare) and len(e.ops) == 1 and isinstance(e.ops[0], (ast.Eq, ast.NotEq, ast.Is, ast.IsNot)) and isinstance(e.comparators[0], ast.Constant) \
+            and (isinstance(e.comparators[0].value, bool) or e.comparators[0].value in (0, 1)) and not isinstance(e.comparators[0].value, float):
+        inner = flag_test(e.left, True) if isinstance(e.left, (ast.Subscript, ast.Call)) else None
+        if inner is not None and not isinstance(e.left, ast.Compare):
+            truth = bool(e.comparators[0].value)
+            same = isinstance(e.ops[0], (ast.Eq, ast.Is))
+            return inner[0], inner[1], pol == (truth == same)
     if isinstance(e, ast.Compare) and len(e.ops) == 1 and isinstance(e.ops[0], (ast.In, ast.NotIn)):
         return e.comparators[0], e.left, pol == isinstance(e.ops[0], ast.In)
     return None
@@ -613,3 +731,60 @@ def effective_cmp(e, pol, lhs_key):
     if not pol:
         op = neg[op]
     return op, other
+
+
+# --------------------------------------------------------------------- gate: contradictions are only reported for code inside the modelled subset
+class Gate:
+    """view of a Ctx that turns `fail` into `undecided` when the function the finding is about contains a construct outside the subset of
+    Python the rules model (FlatFn.foreign): the obligation may be carried by that construct, no rule can tell"""
+
+    def __init__(self, ctx):
+        self._ctx = ctx
+        self._cache = {}
+
+    def __getattr__(self, k):
+        return getattr(self._ctx, k)
+
+    def _foreign(self, site):
+        key = (site.module, site.qualname.split(".<locals>.")[0])
+        if key not in self._cache:
+            res = []
+            try:
+                from ..core import PKG
+                mod = site.module[len(PKG) + 1:] if site.module.startswith(PKG + ".") else site.module
+                q = key[1]
+                repo = self._ctx.repo
+                if repo.has_func(mod, q):
+                    fn = repo.func(mod, q)
+                    cache = getattr(repo, "_hf_gate", None)
+                    if cache is None:
+                        cache = repo._hf_gate = {}
+                    k2 = (mod, id(fn))
+                    if k2 not in cache:
+                        cache[k2] = FlatFn(repo, mod, fn).foreign()
+                    res = cache[k2]
+            except Exception:
+                res = []
+            self._cache[key] = res
+        return self._cache[key]
+
+    def ok(self, rule, site, note=""):
+        return self._ctx.ok(rule, site, note)
+
+    def undecided(self, rule, site, construct, what="", **detail):
+        return self._ctx.undecided(rule, site, construct, what, **detail)
+
+    def fail(self, rule, site, construct, what, **detail):
+        fo = self._foreign(site)
+        if fo:
+            kinds = sorted({t for n, t in fo})
+            return self._ctx.undecided(rule, site, "the function uses a construct the rules do not model: a contradiction found here is not trusted",
+                                       "; ".join(kinds)[:200] + " -- would-be finding: " + construct)
+        return self._ctx.fail(rule, site, construct, what, **detail)
+
+    def check(self, cond, rule, site, construct, what, note="", **detail):
+        if cond:
+            self._ctx.ok(rule, site, note or construct)
+        else:
+            self.fail(rule, site, construct, what, **detail)
+        return cond
